@@ -618,9 +618,70 @@ def bare_foreign_names(R, seed):
                 R.nontrivial('bare_foreign', argname, populated)
 
 
+def wrapped_foreign_names(R, seed):
+    """wrapped methods whose request (or response) message is named in a namespace of its own - one that nothing else of the interface uses: a client
+    built from the WSDL alone gets its calls served, whatever validator the server runs with"""
+    from vflib import clients
+    from spyne import Application, Service, rpc, Unicode, Integer, ComplexModel, Array
+    from spyne.protocol.soap import Soap11
+    from spyne.server.wsgi import WsgiApplication
+    Item = type('WfItem', (ComplexModel,), {'__namespace__': 'urn:vf:c07:wf:items', 'a': Integer, 's': Unicode})
+    for validator in (None, 'soft', 'lxml'):
+        for which in ('in', 'out', 'both', 'in_shared'):
+            for argname in ('primitive', 'complex'):
+                R.evaluations += 1
+                case = {'scenario': 'wrapped_foreign_names', 'seed': seed, 'validator': validator, 'named': which, 'argument': argname}
+                kw = {}
+                if which in ('in', 'both', 'in_shared'):
+                    kw['_in_message_name'] = '{urn:vf:c07:wf:%s}Move' % ('items' if which == 'in_shared' else 'req')
+                if which in ('out', 'both'):
+                    kw['_out_message_name'] = '{urn:vf:c07:wf:resp}Moved'
+                if argname == 'primitive':
+                    def move(ctx, n, t):
+                        return '%s%s' % (t, n)
+                    d = {'move': rpc(Integer, Unicode, _returns=Unicode, **kw)(move)}
+                    call, want = (lambda svc: svc.move(n=5, t='x')), 'x5'
+                else:
+                    def move(ctx, it, n):
+                        return Item(a=it.a + n, s=it.s)
+                    d = {'move': rpc(Item, Integer, _returns=Item, **kw)(move)}
+                    call, want = (lambda svc: (lambda r: (r.a, r.s))(svc.move(it={'a': 2, 's': 'k'}, n=3))), (5, 'k')
+                d['plain'] = rpc(Integer, _returns=Integer)(lambda ctx, n: n)
+                S = type('WfSvc', (Service,), d)
+                try:
+                    app = Application([S], 'urn:vf:c07:wf', name='Wf', in_protocol=Soap11(validator=validator), out_protocol=Soap11())
+                    wsgi = WsgiApplication(app)
+                    w = app.interface.docs.wsdl11
+                    w.build_interface_document('http://localhost/')
+                    doc = w.get_interface_document()
+                except Exception as e:
+                    R.violation('application with a wrapped method named in another namespace (%s, %s argument, validator=%s) cannot be built: %s: %s' % (
+                                which, argname, validator, type(e).__name__, str(e)[:120]), case, mech='wrapped_foreign_message_name:build_raises')
+                    continue
+                try:
+                    Z = clients.ZeepInProc(doc, wsgi)
+                except Exception as e:
+                    R.violation('zeep cannot build a client from the WSDL (%s, %s argument): %s: %s' % (which, argname, type(e).__name__, str(e)[:160]), case,
+                                mech='wrapped_foreign_message_name:zeep_load')
+                    continue
+                R.count('wrapped_foreign_clients_built')
+                try:
+                    got = call(Z.service)
+                except Exception as e:
+                    R.violation('call described by the WSDL (message named in another namespace: %s, %s argument, validator=%s) failed: %s: %s' % (
+                                which, argname, validator, type(e).__name__, str(e)[:160]), dict(case, request=(Z.last_request or b'')[:600].decode('utf8', 'replace')),
+                                mech='wrapped_foreign_message_name:call_refused:%s' % validator)
+                    continue
+                if got != want:
+                    R.violation('call described by the WSDL returned %r, expected %r' % (got, want), case, mech='wrapped_foreign_message_name:wrong_result')
+                    continue
+                R.nontrivial('wrapped_foreign', validator, which, argname)
+
+
 def run(spec, R):
     if spec['first'] == 0:
         bare_foreign_names(R, spec['seed'])
+        wrapped_foreign_names(R, spec['seed'])
     for uid in range(spec['first'], spec['first'] + spec['count']):
         run_app(R, spec['seed'], uid, spec['tier'])
     if spec['first'] == 0:
@@ -632,6 +693,11 @@ def replay(v, R):
     c = v['repro']
     if c.get('scenario') == 'bare_foreign_names':
         bare_foreign_names(R, c['seed'])
+        for x in R.violations[:10]:
+            print('replayed:', x.get('mech'), x.get('what')[:300])
+        return
+    if c.get('scenario') == 'wrapped_foreign_names':
+        wrapped_foreign_names(R, c['seed'])
         for x in R.violations[:10]:
             print('replayed:', x.get('mech'), x.get('what')[:300])
         return
